@@ -1,6 +1,7 @@
 import Hub.Proofs.StoreInv
 import Hub.Model.Registry
 import Hub.Generated.Layout
+import Hub.Generated.LockFacts
 /-!
 # C19 — dataset catalogue, core.Dataset and the datasets themselves agree
 
@@ -252,6 +253,14 @@ theorem facts_shape :
     newItemsCond = ["prevEntity == nil", "isnew"]
     ∧ skipCond = ["!isnew && !isDifferent && !isDifferentLocally"]
     ∧ storeSteps = ["ds.WriteLock.Lock", "time.Sleep", "time.Now().UnixNano", "ds.StoreEntitiesWithTransaction", "ds.store.commitIDTxn", "txn.Commit", "ds.updateDataset"] := by decide
+
+/-- the counter is a read-modify-write of the meta-entity; both writers of it (a batch's
+`updateDataset` and a rename's copy to the new name) run under the dataset's write lock, held from
+before the read to after the write. -/
+theorem facts_counter_lock :
+    Hub.Facts.LockFacts.renameLock = ["ds.WriteLock.Lock()", "defer ds.WriteLock.Unlock()", "rename-branch"]
+    ∧ Hub.Facts.LockFacts.metaUpdateUnderLock = "updateDataset-before-unlock"
+    ∧ Hub.Facts.LockFacts.storeLock = ["ds.WriteLock.Lock()", "defer:ds.WriteLock.Unlock()"] := by decide
 
 -- non-vacuity
 example : let r := run [.create "a", .create "b", .delete "a", .create "a", .rename "b" "c"]
